@@ -1084,6 +1084,89 @@ class Gen:
         body.extend(self.gen_body(env, depth, tctx))
         return body
 
+
+    def scope_clash(self, globs, genv, attrsets, templates):
+        """SCOPE CLASHES: one name bound globally and locally at every place where the Recommendation switches the variable
+        scope, so that resolving a reference in the wrong frame changes the result:
+          * attribute sets see ONLY top-level variables / params (XSLT 7.1.4) -- also nested use-attribute-sets, sets used
+            from a literal result element / xsl:element / xsl:copy, inside a called template whose xsl:param / the caller's
+            xsl:with-param has the same name;
+          * a top-level variable's initialiser sees the other top-level bindings, also when it is first evaluated (lazily)
+            from inside a template with same-named locals;
+          * the default of an xsl:param is evaluated in the callee (a same-named local of the caller is invisible, the
+            same-named global is visible), the value of xsl:with-param in the caller;
+          * an xsl:sort key of xsl:for-each sees the bindings in scope at the for-each, not those made in its body.
+        (xsl:key match / use may not contain variable references at all, XSLT 12.2 -- nothing to clash.)"""
+        r = self.r
+        S = lambda s: ("lit", s)
+        V = lambda n: ("var", n)
+        cat = lambda *a: ("fn", "concat", list(a))
+        vo = lambda e: {"k": "valueof", "e": e}
+        txt = lambda s: {"k": "text", "s": s}
+        # globals: gs (string), gl = concat($gs,'+') (evaluated lazily), gk (sort direction)
+        globs.append({"k": r.choice(["variable", "param"]), "name": "gs", "select": S("glob"), "body": []})
+        globs.append({"k": "variable", "name": "gl", "select": cat(V("gs"), S("+")), "body": []})
+        globs.append({"k": "variable", "name": "gk", "select": ("neg", ("num", 1)), "body": []})
+        genv.extend([("gs", "str"), ("gl", "str"), ("gk", "num")])
+        # attribute sets referring to the global; sc2 uses sc
+        attrsets.append({"name": "sc", "uses": [], "body": [{"k": "attribute", "name": [("l", "sc")], "body": [vo(V("gs")), txt("|"), vo(V("gl"))]}]})
+        attrsets.append({"name": "sc2", "uses": ["sc"], "body": [{"k": "attribute", "name": [("l", "sc2")], "body": [vo(cat(V("gs"), S("2")))]}]})
+        use = lambda: {"k": "usesets", "names": r.choice([["sc"], ["sc2"], ["sc", "sc2"]])}
+
+        def user():
+            """an element-creating instruction that uses the sets, followed by a reference that shows the local value"""
+            c = r.weighted([("lre", 3), ("element", 2), ("copy", 2)])
+            inner = [txt("u")] if r.chance(1, 2) else []
+            if c == "lre":
+                return {"k": "lre", "name": "w", "attrs": [], "body": [use()] + inner}
+            if c == "element":
+                return {"k": "element", "name": [("l", "el")], "body": [use()] + inner}
+            return {"k": "copy", "body": [use()] + inner}
+
+        def local(name, val):
+            return {"k": "variable", "name": name, "select": S(val), "body": []} if r.chance(2, 3) else \
+                   {"k": "variable", "name": name, "select": None, "body": [txt(val)]}
+
+        # called template: the clash comes from its own xsl:param (default refers to the global of the same name), from the
+        # caller's xsl:with-param, or from a local xsl:variable
+        variant = r.choice(["param", "param", "variable"])
+        body = []
+        if variant == "param":
+            body.append({"k": "param", "name": "gs", "select": cat(V("gs"), S("-dflt")), "body": []})
+        else:
+            body.append(local("gs", "loc"))
+        if r.chance(1, 2):
+            body.append(local("gl", "locl"))
+        body += [user(), txt("["), vo(V("gs")), txt("]")]
+        if r.chance(2, 3):
+            body += [vo(V("gl")) if not any(i.get("name") == "gl" for i in body) else vo(cat(V("gl"), S("!")))]
+        # sort key against the bindings in scope at the for-each
+        before = r.chance(1, 2)
+        fe_body = [vo(("fn", "name", [])), txt(",")]
+        if not before:
+            fe_body = [{"k": "variable", "name": "gk", "select": ("num", 1), "body": []}] + fe_body + [vo(V("gk"))]
+        fe = {"k": "foreach", "select": ("step", ("step", ("root",), "child", "star", []), "child", "star", []),
+              "sorts": [(("bin", "*", ("fn", "count", [("step", ("ctx",), "preceding-sibling", "star", [])]), V("gk")), True, False)],
+              "body": fe_body}
+        if r.chance(1, 2):
+            body += ([{"k": "variable", "name": "gk", "select": ("num", 1), "body": []}] if before else []) + [fe]
+        templates.append({"pats": [], "name": "tc", "mode": None, "prio": None, "body": body})
+        # callers: with or without with-param, with or without a same-named local of their own
+        hosts = [t for t in templates if t["name"] != "tc"]
+        for t in r.shuffle(hosts)[: r.range(1, 2)]:
+            pre = []
+            if r.chance(1, 2) and not any(i.get("k") in ("variable", "param") and i.get("name") == "gs" for i in t["body"]):
+                pre.append(local("gs", "caller"))
+            wp = []
+            if r.chance(1, 2):
+                wp = [{"k": "withparam", "name": "gs", "select": cat(V("gs"), S("-wp")), "body": []}]
+            call = {"k": "call", "name": "tc", "params": wp}
+            # params must stay first in a template body
+            npar = len([i for i in t["body"] if i["k"] == "param"])
+            tail = pre + ([user()] if pre and r.chance(1, 2) else []) + [call]
+            t["body"] = t["body"][:npar] + ([] if r.chance(1, 2) else []) + t["body"][npar:] + tail
+        self.features.add("scope-clash")
+
     def gen_stylesheet(self):
         r = self.r
         self.varctr = 0
@@ -1178,6 +1261,8 @@ class Gen:
                 t["body"].append({"k": "apply", "select": None, "mode": None, "sorts": [], "params": []})
                 t["body"].append({"k": "apply", "select": None, "mode": "m1", "sorts": [], "params": []})
             self.features.add("two-modes-one-template")
+        if not self.fragment and r.chance(1, 3):
+            self.scope_clash(globs, genv, attrsets, templates)
         templates = r.shuffle(templates)
         modules = None
         if self.imports:
